@@ -250,24 +250,40 @@ def run(ctx, chk, tier="quick"):
         # the explicit branch is selected by `is not None`, not by truthiness (a reference of 0 is a valid level)
         if "explicit" in kinds:
             est = kinds["explicit"][2]
-            sel = None
+            tests = []
+            child = est
             a = getattr(est, "parent", None)
             while a is not None and a is not f.node:
                 if isinstance(a, ast.If) and ref in {x.id for x in ast.walk(a.test) if isinstance(x, ast.Name)}:
-                    sel = a
-                    break
+                    tests.append(a)
+                child = a
                 a = getattr(a, "parent", None)
-            if sel is not None:
-                t = sel.test
-                none_test = any(isinstance(c, ast.Compare) and isinstance(c.ops[0], (ast.IsNot, ast.Is, ast.NotEq, ast.Eq))
-                                and any(isinstance(x, ast.Constant) and x.value is None for x in c.comparators)
-                                and isinstance(c.left, ast.Name) and c.left.id == ref for c in ast.walk(t))
-                bare = any(isinstance(x, ast.Name) and x.id == ref and not isinstance(getattr(x, "parent", None), (ast.Compare, ast.Call, ast.BinOp))
+
+            def is_none_test(t):
+                return any(isinstance(c, ast.Compare) and isinstance(c.ops[0], (ast.IsNot, ast.Is, ast.NotEq, ast.Eq))
+                           and any(isinstance(x, ast.Constant) and x.value is None for x in c.comparators)
+                           and isinstance(c.left, ast.Name) and c.left.id == ref for c in ast.walk(t))
+
+            def is_bare(t):
+                # the reference itself used as a truth value: `if ref`, `ref and ..`, `not ref`
+                return any(isinstance(x, ast.Name) and x.id == ref and isinstance(getattr(x, "parent", None), (ast.BoolOp, ast.UnaryOp, ast.If, ast.IfExp, ast.While))
+                           and not (isinstance(x.parent, ast.UnaryOp) and not isinstance(x.parent.op, ast.Not))
                            for x in ast.walk(t)) or (isinstance(t, ast.Name) and t.id == ref)
-                chk.ob("C09.O1", none_test and not bare, where_of(f, sel), "explicit reference selected by `%s`" % ast.unparse(t),
-                       "`reference is not None`: zero is a valid reference level", key="%s|reference-selected-by-none-test" % fq,
-                       why="0.0 is falsy: `if reference:` silently treats the level 0 (a multiple of every step) as 'no reference'")
-                desc["none_test"] = none_test and not bare
+
+            if tests:
+                bare = [t for t in tests if is_bare(t.test)]
+                nonet = [t for t in tests if is_none_test(t.test)]
+                if bare:
+                    chk.ob("C09.O1", False, where_of(f, bare[0]), "explicit reference selected by the truth value of `%s`" % ast.unparse(bare[0].test)[:80],
+                           "`reference is not None`: zero is a valid reference level", key="%s|reference-selected-by-none-test" % fq,
+                           why="0.0 is falsy: `if reference:` silently treats the level 0 (a multiple of every step) as 'no reference'")
+                    desc["none_test"] = False
+                elif nonet:
+                    chk.ob("C09.O1", True, where_of(f, nonet[0]), "explicit reference selected by `%s`" % ast.unparse(nonet[0].test)[:80],
+                           "`reference is not None`: zero is a valid reference level", key="%s|reference-selected-by-none-test" % fq)
+                    desc["none_test"] = True
+                else:
+                    chk.indeterminate("C09.O1", where_of(f, tests[0]), "how the explicit reference is told from the default is not recognised: %s" % ast.unparse(tests[0].test)[:80])
         descriptors[label] = desc
 
     # ---- O5 siblings
